@@ -9,7 +9,7 @@ PROPS = ["C%02d" % i for i in range(1, 21)]
 def sh(cmd, cwd=None):
     return subprocess.run(cmd, shell=True, cwd=cwd, capture_output=True, text=True)
 def keys(prop, repo):
-    r = sh(f"{V}/bin/risorcheck -sub -property {prop} -tier quick -repo {repo} -verif {V}")
+    r = sh(f"{os.environ.get('RISORCHECK', V + '/bin/risorcheck')} -sub -property {prop} -tier quick -repo {repo} -verif {V}")
     try: out = json.loads(r.stdout)
     except Exception: return None, ["checker output unreadable"]
     ks = {o.get("Key", o.get("key")) for o in out.get("Obs") or [] if not o.get("ok", o.get("OK")) and not o.get("Known", o.get("known"))}
